@@ -51,6 +51,21 @@ def rank_scenarios(tier, seed):
             if cert.kernel_vector(cert.gf_matrix(p, isis, False), p.L) is not None and cert.kernel_vector(cert.gf_matrix(p, isis, True), p.L) is None:
                 fallback += 1
                 add(K, decscen.DENSE if fallback % 2 else decscen.SPARSE, [esis], "one batch: binary-only system rank deficient, full system has full rank (fast path must fall back)")
+        # a linearly redundant family first: more than L distinct repair ESIs that together still do NOT determine the block
+        # (grown greedily with the rank oracle: an ESI is added only if the set stays rank deficient), then ordinary repair
+        # symbols one at a time - the set becomes decodable only after more than L repair packets have arrived
+        if p.Kp <= 26:
+            fam, e = [], K + 200
+            pad = list(range(K, p.Kp))
+            while len(fam) < p.L + 3 and e < K + 5000:
+                isis = [x + p.Kp - K for x in fam + [e]] + pad
+                if cert.kernel_vector(cert.gf_matrix(p, isis, True), p.L) is not None:
+                    fam.append(e)
+                e += 1
+            if len(fam) >= p.L + 3:
+                tail = list(range(K + 70000, K + 70000 + K + 6))
+                add(K, decscen.DENSE, [[x] for x in fam + tail], "more than L distinct repair ESIs that leave the block undetermined, then ordinary repair symbols")
+                add(K, decscen.SPARSE, [fam[:p.L // 2], fam[p.L // 2:]] + [[x] for x in tail], "the same redundant family in two batches, then ordinary repair symbols")
         # fewer than K symbols
         add(K, decscen.DENSE, [[e] for e in range(K - 1)], "K-1 source symbols only")
         add(K, decscen.SPARSE, [[K + i for i in range(K - 1)]], "K-1 repair symbols in one batch")
